@@ -67,6 +67,9 @@ class CanStaticSchema: public ICanSchema {
         }
 
         std::array<std::uint8_t, 8> data{};
+        if (encoded.value().size() > data.size()) {
+            return std::nullopt;
+        }
         std::copy_n(encoded.value().begin(), encoded.value().size(), data.begin());
 
         std::array<char, 4> bus_name_arr{};
